@@ -240,64 +240,9 @@ Loop:
 			continue
 		}
 
-		// the queued messages have been sent to redis in bulk,
-		// and the messages are finally assembled and sent to
-		// the client when and only when all the messages have been processed
-
-		// Whether all inMsgQueue messages have been processed
-		if !c.inMsgQueue.AllDone() {
-			continue
-		}
-
-		var bs = make([][]byte, c.inMsgQueue.count)
-		bs = bs[:0]
-		cur := c.inMsgQueue.head
-
-		var curId uint64
-		var curFd = c.fd
-
-		for cur != nil {
-			curId = cur.Id
-			bs = append(bs, cur.RspBody)
-			logging.Debugfunc(func() string { return fmt.Sprintf("[%dm][%dc] got res: %s", cur.Id, c.Fd(), cur.RspBodyString()) })
-			cur = cur.prev
-		}
-
-		for len(bs) > 0 {
-			var r = len(bs)
-			if r >= iovMax {
-				r = iovMax
-			}
-
-			if _, err = c.writev(bs[0:r]); err != nil {
-				logging.Warnf("[%dm][%dc] write to client failed, error: %s, body: %s", cur.Id, c.fd, err, cur.RspBodyString())
-				break
-			}
-			if !c.opened {
-				logging.Warnf("[%dm][%dc] write failed because of client closed", curId, curFd)
-				break
-			}
-			bs = bs[r:]
-		}
-
-		if _, err = c.writev(bs); err != nil {
-			logging.Warnf("[%dm][%dc] write to client failed, error: %s, body: %s", cur.Id, c.fd, err, cur.RspBodyString())
-			continue
-		}
-
-		if !c.opened {
-			logging.Warnf("[%dm][%dc] write failed because of client closed", curId, curFd)
-			continue
-		}
-
-		// release Msg
-		for {
-			msg := c.dequeueInMsg()
-			if msg == nil {
-				break
-			}
-			MsgPool.Put(msg)
-		}
+		// the replies of the requests at the head of the queue that have been
+		// processed are sent to the client, in the order the requests arrived
+		el.flushClient(c)
 
 		// Check the status of connection every loop since it might be closed
 		// during writing data back to the peer due to some kind of system error.
@@ -308,6 +253,41 @@ Loop:
 
 	_, _ = s.inboundBuffer.Write(s.buffer)
 	return nil
+}
+
+// flushClient writes the replies of the completed requests at the head of the client's queue
+// back to the client in request order and releases them; it stops at the first request that is still in flight.
+func (el *eventloop) flushClient(c *conn) {
+	if !c.opened {
+		return
+	}
+
+	var bs [][]byte
+	for cur := c.inMsgQueue.head; cur != nil && cur.Done; cur = cur.prev {
+		bs = append(bs, cur.RspBody)
+		logging.Debugfunc(func() string { return fmt.Sprintf("[%dm][%dc] got res: %s", cur.Id, c.Fd(), cur.RspBodyString()) })
+	}
+	done := len(bs)
+
+	for len(bs) > 0 {
+		var r = len(bs)
+		if r >= iovMax {
+			r = iovMax
+		}
+		if _, err := c.writev(bs[0:r]); err != nil {
+			logging.Warnf("[%dc] write to client failed, error: %s", c.fd, err)
+			return
+		}
+		if !c.opened {
+			return
+		}
+		bs = bs[r:]
+	}
+
+	// release Msg
+	for ; done > 0; done-- {
+		MsgPool.Put(c.dequeueInMsg())
+	}
 }
 
 const iovMax = 1024
